@@ -45,6 +45,10 @@ SYM = ["JP {L}", "JPZ {L}", "JPNZ {L}", "JPC {L}", "JPNC {L}", "CALL {L}", "CALL
 DATA = ["defb 0x{b}", "defb 1, 2, 0x{b}", "defw 0x{w}", "defw 0x{w}, 0x{w}", "defl 0x{l}", "defl 0x{x}", "defl 0x{x}, 0x{l}",
         "defs {n}", "defm \"{t}\""]
 NEAR = ("JP ", "JPZ ", "JPNZ ", "JPC ", "JPNC ", "CALL ")
+# a label with a small value (defined within the first statements of a program that starts at origin 0) used where
+# the operand is one byte: the displacement of [r3+n] / [(n)+d] forms and an 8-bit immediate
+SMALL_SYM = ["MV A, [X+{S}]", "MV [Y-{S}], A", "MV A, [(0x10)+{S}]", "MV (0x20), [X+{S}]", "MV A, {S}", "ADD A, {S}"]
+SMALL_LABEL = "L5"
 # single-statement forms covering the assembler's operand syntax (every addressing mode of the internal
 # memory, [r3] forms with increment/decrement/offset, [(n)] indirection, register pairs); the literals are
 # re-drawn per use (same digit count; internal addresses stay below the named registers at 0xD4)
@@ -165,6 +169,14 @@ def _gen_program(r: Rng, good: bool) -> Dict[str, Any]:
             stmts[i]["label"] = lb
         else:
             stmts.append({"text": "NOP", "kind": "ins", "label": lb})
+    if stmts and stmts[0]["kind"] in ("ins", "data") and r.chance(1, 3):
+        early = [i for i in range(min(3, len(stmts))) if stmts[i]["kind"] in ("ins", "data") and "label" not in stmts[i]
+                 and all(st["kind"] in ("ins", "data") for st in stmts[:i + 1])]
+        if early:
+            stmts[r.choice(early)]["label"] = SMALL_LABEL
+            for _ in range(r.range(1, 2)):
+                pos = r.range(0, len(stmts))
+                stmts.insert(pos, {"text": r.choice(SMALL_SYM).replace("{S}", SMALL_LABEL), "kind": "ins"})
     if good and org_pool and cur_sec != "bss" and r.chance(1, 8):
         # a page-local transfer placed at a fresh origin: same page as its label or another one
         # (page 0 <-> page N and page N <-> page M), so that the page rule is exercised in every direction
@@ -260,6 +272,7 @@ def _model(prog: Dict[str, Any], symbols: Dict[str, int]) -> Dict[str, Any]:
             labels[s["label"].upper()] = addr
         text = s["text"]
         probe_text = text
+        probe_text = probe_text.replace(SMALL_LABEL, "0x10")
         for lb in ("L0", "L1", "L2", "L3", "L4"):
             probe_text = probe_text.replace(lb, f"0x{addr & 0xF0000 | 0x10:X}")
         try:
